@@ -872,6 +872,24 @@ func runC04Wide(run *runner, idx int64, c *c04WideCase, seen map[string]int) str
 	for k, d := range drivers {
 		m.observeList("wide-list-after-delete", "wide-delete", d, wideQ, []int{1000, 100, 333}[(k+1+int(idx))%3])
 	}
+	// delete-by-query over what is left of the wide node (still more than 1000
+	// rows in most cases): all and only the matching relationships go, at once
+	dq := &storeOp{Kind: "delete-query", Via: c.Vias[len(c.Vias)-1], Query: wideQ}
+	if before, err := env.Dump(); err == nil {
+		if _, _, stop := m.applyWrite("wide-delete-query", byVia[dq.Via], dq, before, env.Dump); stop {
+			return "stopped"
+		}
+		run.count("wide_delete_by_query", 1)
+		for k, d := range drivers {
+			m.observeList("wide-list-after-delete-query", "wide-delete-query", d, wideQ, []int{1000, 100, 333}[(k+int(idx))%3])
+			m.observeList("wide-list-all-after-delete-query", "wide-delete-query", d, &ketoapi.RelationQuery{}, 1000)
+		}
+		for k, i := range c.Probes {
+			if k < 8 {
+				probe(fmt.Sprintf("wide-check-after-delete-query%d", k), "wide-delete-query", k, i)
+			}
+		}
+	}
 	if m.fail {
 		return "violation"
 	}
